@@ -99,6 +99,25 @@ def run(ctx):
     for i, c in enumerate(rnd.sample(cases, min(len(cases), 400 if q else 8000))):
         odd = odds[i % len(odds)]
         extra.append(dict(c, f=rename(T(c['f']), odd), back={v: k for k, v in odd.items()}, style=rnd.choice(['obj', 'raw'])))
+    consts = [TR, FA]
+    xs = [P, ('not', P), ('U', P, Q), ('not', ('U', FA, P)), ('U', FA, P), ('R', TR, Q)]
+    chains = []
+    for o1 in ('F', 'G', 'X', 'not'):
+        for o2 in ('F', 'G', 'X', 'not'):
+            for o3 in ('F', 'G', 'not', None):
+                for b in ('U', 'R', 'and', 'or', 'imp'):
+                    for c0 in consts:
+                        for x in xs:
+                            for order in (0, 1):
+                                core = (b, c0, x) if order == 0 else (b, x, c0)
+                                g = (o3, core) if o3 else core
+                                chains.append((o1, (o2, g)))
+    for g in rnd.sample(chains, 150 if q else 1500):
+        extra.append({'op': 'restrict', 'logic': 'LTL', 'kind': 'path', 'f': g})
+        if rnd.random() < 0.3:
+            extra.append({'op': 'restrict', 'logic': 'CTLS', 'kind': 'path', 'f': g})
+        if rnd.random() < 0.15:
+            extra.append({'op': 'restrict', 'logic': 'CTLS', 'kind': 'state', 'f': (rnd.choice('AE'), g)})
     cases += extra
     for i, c in enumerate(cases):
         c['tid'] = i
